@@ -18,6 +18,7 @@ mod prog;
 mod c03;
 mod c17;
 mod c08;
+mod c15;
 
 fn main() {
     let args: Vec<String> = std::env::args().collect();
@@ -53,6 +54,7 @@ fn main() {
         "C03" => c03::run(&mut sink, thorough, seed),
         "C17" => c17::run(&mut sink, thorough, seed),
         "C08" => c08::run(&mut sink, thorough, seed),
+        "C15" => c15::run(&mut sink, thorough, seed),
         "replay" => { /* replay lines are `op args…` on stdin */
             let mut s = String::new();
             use std::io::Read;
@@ -86,6 +88,7 @@ fn replay(sink: &mut common::Sink, toks: &[&str]) {
         "serc" | "serp" | "serbufs" | "serbufx" | "disp" => c03::replay(sink, toks),
         "maphist" | "mapeqh" | "mapeq" | "maphash" | "mapsort" => c17::replay(sink, toks),
         "f64lit" | "f32lit" => c08::replay(sink, toks),
+        "tov" | "tovagree" => c15::replay(sink, toks),
         _ => eprintln!("cannot replay op {}", toks[0]),
     }
 }
